@@ -40,6 +40,7 @@ def symbolic_for_list(I, node, env, it, spec, k, qn):
         try:
             I.exec_block(node.body, env)
         except _pyvc()._Break:
+            I.path.event('loop.break', k)      # the loop is left before its iterable is exhausted
             return
         except _pyvc()._Continue:
             pass
